@@ -19,6 +19,7 @@ import Vlsp.Model.Bump
 import Vlsp.Spec.BumpSpec
 import Vlsp.Model.Registry
 import Vlsp.Model.Server
+import Vlsp.Model.DataDir
 import Vlsp.Model.Config
 
 /-! Line-protocol plumbing shared by the driver's op tables. -/
@@ -416,6 +417,19 @@ def lspStep (st : DState) (op : String) (f : List Text) : Option (DState × Stri
     some ({ st with answer := ans }, "ok")
   | "ml.start", [ip] =>
     some ({ st with srv := { now := 1000, ccfg := ⟨Generated.defaultRefreshIntervalMs, ip == ['T']⟩ } }, "ok")
+  | "ml.start", [ip, store, faults] =>
+    -- faults: "L:lodash,V:*" — only the read sites are part of the server model
+    let fl : List (Text × Char) := (splitChar ',' faults).filterMap fun item =>
+      match item with
+      | c :: ':' :: name => if c == 'L' || c == 'T' || c == 'V' then some (name, c) else none
+      | _ => none
+    some ({ st with srv := { now := 1000, ccfg := ⟨Generated.defaultRefreshIntervalMs, ip == ['T']⟩, store := store == ['T'], faults := fl } }, "ok")
+  | "ml.restart", [store] =>
+    -- a new server process over the same database file
+    some ({ st with srv := { now := 1000, ccfg := st.srv.ccfg, db := st.srv.db, store := store == ['T'] } }, "ok")
+  | "l.datadir", [x, h] =>
+    let opt (t : Text) : Option Text := match t with | 'S' :: r => some r | _ => none
+    some (st, s!"{hex (DataDir.dataDir (opt x) (opt h))} {hex (DataDir.dbPath (opt x) (opt h))} {hex (DataDir.logPath (opt x) (opt h))}")
   | "ml.cache", reg :: name :: vs =>
     some ({ st with srv := { st.srv with db := Cache.replaceVersions st.srv.db ⟨reg, name⟩ vs st.srv.now } }, "ok")
   | "ml.tags", reg :: name :: kv =>
